@@ -78,7 +78,9 @@ def jobs(tier: str):
             yield from subsets(core, 4, 4)
         yield from (c + ("u(W) : v(Z,V)",) for c in subsets(MENU[:6], 3, 3))
         yield from (c + ("r(Y,K)", "u(K) : v(Z,V)") for c in subsets(MENU[:6], 2, 2))
-        arith = ["r(X/2,W)", "r(X+1,W)", "r(2*X,W)", "K = X/2", "q(X,Y/2,Z)", "t(|Y|)", "W = Y+1"]
+        arith = ["r(X/2,W)", "r(X+1,W)", "r(2*X,W)", "K = X/2", "q(X,Y/2,Z)", "t(|Y|)", "W = Y+1",
+                 # nested unary operations: an invertible outer minus around a non-invertible |.| / ~ binds nothing
+                 "r(-|Y|,W)", "t(-|Y|)", "r(-(~Y),W)", "r(-(-Y),W)", "r(-|Z|,E)"]
         for a in arith:
             yield from (c + (a,) for c in subsets(["q(X,Y,Z)", "r(W,E)", "t(E)", "r(X,W)", "s(Y,E)", "r(K,W)"], 2, 3))
         # doubly negated literals bind nothing: an atom / an assigning aggregate under `not not` next to the real binders
